@@ -29,3 +29,11 @@ pub(super) use arithmetic_crystal_class::iter_arithmetic_crystal_entry;
 pub(super) use magnetic_space_group::uni_number_range;
 pub(super) use point_group::PointGroupRepresentative;
 pub(super) use wyckoff::{iter_wyckoff_positions, WyckoffPosition, WyckoffPositionSpace};
+
+#[cfg(feature = "verif")]
+pub mod verif_exports {
+    pub use super::arithmetic_crystal_class::iter_arithmetic_crystal_entry;
+    pub use super::magnetic_space_group::uni_number_range;
+    pub use super::point_group::PointGroupRepresentative;
+    pub use super::wyckoff::{iter_wyckoff_positions, WyckoffPosition, WyckoffPositionSpace};
+}
